@@ -3,6 +3,7 @@ package streams
 import (
 	"fmt"
 	"math/rand"
+	"sync"
 	"time"
 
 	corev1 "k8s.io/api/core/v1"
@@ -27,6 +28,11 @@ type sampleJ struct {
 	Values []string   `json:"values"`
 	Frac   bool       `json:"frac"`
 }
+
+var (
+	metricsOnce              sync.Once
+	edsFamilies, ersFamilies []generator.FamilyGenerator
+)
 
 func runFamilies(fams []generator.FamilyGenerator, obj interface{}) []sampleJ {
 	var out []sampleJ
@@ -84,8 +90,13 @@ func streamMetrics(r *rand.Rand, i int, tier string) *Case {
 	}
 	var edsS, ersS []sampleJ
 	p, _ := Recovered(func() {
-		edsS = runFamilies(edsctl.VerifGenerateMetricFamilies(), eds)
-		ersS = runFamilies(ersctl.VerifGenerateMetricFamilies(), ers)
+		// the controller builds its metric families ONCE and renders every object through them: nothing a
+		// generator saw for one object may show in the series of the next one
+		metricsOnce.Do(func() {
+			edsFamilies, ersFamilies = edsctl.VerifGenerateMetricFamilies(), ersctl.VerifGenerateMetricFamilies()
+		})
+		edsS = runFamilies(edsFamilies, eds)
+		ersS = runFamilies(ersFamilies, ers)
 	})
 	cat := []string{"state:" + string(st.State)}
 	if st.Canary != nil {
